@@ -61,6 +61,11 @@ def run(run):
         # minimised past disagreement (model joined call-name identifiers with "." even after an empty MISSING identifier)
         inputs += [("missing-identifier", b"class A { void f(){ x = .<T>z(a); y = .z(b).<U>w(); } }"),
                    ("missing-identifier", bytes.fromhex("7c2d2b3bff223e7d637a7b2b227a7c3cc36161227b623c260a282c633d2e293d2f622728632d222f202e3c78ff2a2e2b26ff002e780a7a28a97d7bff616229292d27"))]
+        # a local declaration followed, in the same block, by deeply nested code in trailing positions
+        for dd in (10, 16, 24):
+            inputs.append(("local-then-deep", ("class A { int f(int a){ return a; } void m(boolean c){ int unused = 0; int r = " + "f(" * dd + "1" + ")" * dd + "; } }").encode()))
+            inputs.append(("local-then-deep", ("class A { void m(boolean c){ int unused = 0; " + "if (c) { " * dd + "c = !c;" + " }" * dd + " } }").encode()))
+            inputs.append(("local-then-deep", ("class A { void m(int a){ int unused = 0; int r = " + "(a + " * dd + "1" + ")" * dd + "; } }").encode()))
         inputs += [("empty", b""), ("nul", b"\x00" * 50), ("invalid-utf8", b"\xff\xfe class \xc3( { int x = \xe9 + ; }"),
                    ("deep-parens", b"class A { int f(){ return " + b"(" * 2000 + b"1" + b")" * 2000 + b"; } }"),
                    ("deep-blocks", b"class A { void f(){ " + b"{" * 1500 + b"}" * 1500 + b" } }"),
